@@ -407,6 +407,18 @@ fn c07(quick: bool) -> Vec<Harness> {
             v.push(ops_harness(&format!("{k:?}-on-direct-sq{sq}"), "C07", cfg, bounds(d(8, 13), d(2, 4), 4)));
         }
     }
+    // Duplicates made with try_clone are descriptors of their own.
+    for sq in [1u32, 4] {
+        let mut cfg = drop_cfg("C07", vec![OpenFile]);
+        cfg.sq = sq;
+        cfg.held_letters = true;
+        cfg.clone_held = true;
+        cfg.faults = false;
+        cfg.errors = false;
+        cfg.allow_cancel_lose = false;
+        cfg.report = vec!["C07"];
+        v.push(ops_harness(&format!("OpenFile-try_clone-sq{sq}"), "C07", cfg, bounds(d(9, 12), d(2, 3), 4)));
+    }
     for (a, b) in [(OpenFile, OpenDirect), (MultishotAccept, Socket), (Pipe, ToDirect)] {
         let mut cfg = drop_cfg("C07", vec![a, b]);
         cfg.sq = 2;
